@@ -433,3 +433,13 @@ _KWS_NEW_DELEG = "        Self::with_safety(\n            opw_parameters,\n     
 KEEP += [
     ('K106', W, _KWS_NEW_OLD, _KWS_NEW_DELEG, ['C11', 'C09'], 'KinematicsWithShape::new delegates to with_safety, arguments in order'),
 ]
+
+UT = 'src/utils/utils.rs'
+_TC_OLD = "    [(from[0] - to[0]).abs() * coefficients[0]\n        + (from[1] - to[1]).abs() * coefficients[1]\n        + (from[2] - to[2]).abs() * coefficients[2]\n        + (from[3] - to[3]).abs() * coefficients[3]\n        + (from[4] - to[4]).abs() * coefficients[4]\n        + (from[5] - to[5]).abs() * coefficients[5]]\n    .iter()\n    .fold(f64::NEG_INFINITY, |a, &b| a.max(b))"
+KEEP += [
+    ('K107', UT, _TC_OLD, "    (from[0] - to[0]).abs() * coefficients[0]\n        + (from[1] - to[1]).abs() * coefficients[1]\n        + (from[2] - to[2]).abs() * coefficients[2]\n        + (from[3] - to[3]).abs() * coefficients[3]\n        + (from[4] - to[4]).abs() * coefficients[4]\n        + (from[5] - to[5]).abs() * coefficients[5]", ['C12'], 'the one-element max dropped from the transition cost'),
+    ('K108', UT, _TC_OLD, "    let mut total = 0.0;\n    for i in 0..6 {\n        total += (from[i] - to[i]).abs() * coefficients[i];\n    }\n    total", ['C12'], 'transition cost as an accumulator loop'),
+    ('K109', UT, "    if *x == 0.0 {\n        return \"0\".to_string();\n    }", "    if x == &0.0 {\n        return \"0\".to_string();\n    }", ['C19'], 'exact-zero test on the reference'),
+    ('K110', CO, "        self.detect_collisions(&joint_poses_f32, &safety_distances, None)", "        self.detect_collisions(&joint_poses_f32, &safety_distances, Some(safety_distances.mode))", ['C10', 'C11'], 'near states the mode of the table it was given'),
+    ('K111', K, "    let mut diff = (angle1 - angle2).abs();\n    diff = diff % (2.0 * PI);\n    while diff > PI {\n        diff = (2.0 * PI) - diff;\n    }\n    diff < SINGULARITY_ANGLE_THR", "    let diff = (angle1 - angle2).rem_euclid(2.0 * PI);\n    diff < SINGULARITY_ANGLE_THR || 2.0 * PI - diff < SINGULARITY_ANGLE_THR", ['C05'], 'discriminator through rem_euclid'),
+]
